@@ -229,6 +229,11 @@ def run_sim(spec, program, replay=None, lenient=False, wall_limit=60.0):
             sched.harness_error = str(e)
     finally:
         rt.install(None)
+        try:
+            pe_ = root.modules.get("loky.process_executor")
+            res.root_global_shutdown = bool(pe_ is not None and pe_._global_shutdown)
+        except Exception:
+            res.root_global_shutdown = False
         __import__("warnings").filters[:] = warnings_filters
         sys.argv = saved_argv
         for p in k.procs.values():
